@@ -204,7 +204,7 @@ func cmdCheck(args []string) {
 	for _, e := range p.SpecErr {
 		limits = append(limits, "spec: "+e)
 	}
-	outs := dischargeAll(solver, allObls, 8)
+	outs := dischargeAll(solver, allObls, 5)
 	agg := aggregate(outs)
 
 	replayDir := filepath.Join(vd, "out", "replay")
